@@ -2,7 +2,7 @@
    Statements only; every proof is [exact <lemma of theories/Rep.v>].
    gen_* are generated from the current src/bartiq/repetitions.py. *)
 From Coq Require Import List String QArith ZArith.
-From Bq Require Import Expr StdSem Rep.
+From Bq Require Import Expr ExprFacts StdSem Rep RepModel Routine Compare Compile CompileFacts Derived DerivedFacts.
 From BqGen Require Import GenRepetitions.
 Import ListNotations.
 Open Scope Q_scope.
@@ -54,3 +54,26 @@ Theorem C07_const_prod : forall r m e cnt n k,
             evalT r g == prodn n (fun _ => Qpower (evalT r e) (Z.of_nat k)).
 Proof. exact const_prod_correct. Qed.
 Print Assumptions C07_const_prod.
+
+(* embedded at any level, for DERIVED resources too: compilation with derived resources (Derived.go_d, the model of
+   `_add_derived_resources`) is natural like plain compilation -- reading the compiled hierarchy at rho gives what the same
+   traversal computes directly over values -- provided each calculator commutes with taking values.  So the resource a
+   calculator adds to a child enters the repeated parent's sum exactly as a declared one does (the clause of the traversal
+   that builds the sum walks the compiled child's resources, whatever put them there). *)
+Theorem C07_derived_resources_enter_like_declared_ones :
+  forall (V : Type) (ofQ : Q -> V) (I : op -> list V -> V) (B : bigop -> (V -> V) -> V -> V -> V),
+    (forall k f g lo hi, (forall v, f v = g v) -> B k f lo hi = B k g lo hi) ->
+    forall (rho : string -> V) calcsE calcsV,
+      Forall2 (calc_natural V ofQ I B rho) calcsE calcsV ->
+      forall fuel r inputs t,
+        go_d ev_subst statusE fv calcsE fuel r inputs = Ok t ->
+        go_d (ev_val V ofQ I B rho) (fun _ _ => CInconclusive) (fun _ => []) calcsV fuel r (valenv V ofQ I B rho inputs)
+        = Ok (valtree V ofQ I B rho t).
+Proof. exact go_d_natural. Qed.
+Print Assumptions C07_derived_resources_enter_like_declared_ones.
+
+(* the hypothesis is met by the calculator of the correspondence stream (a * <resource> + b on childless routines) *)
+Theorem C07_leaf_calculator_commutes : forall V ofQ I B rho x ty of a b,
+  calc_natural V ofQ I B rho (leaf_calc_e x ty of a b) (leaf_calc_v ofQ I x ty of a b).
+Proof. exact leaf_calc_natural. Qed.
+Print Assumptions C07_leaf_calculator_commutes.
